@@ -760,3 +760,93 @@ M("C16", "no-follow-still-follows", "breaking",
   "G4:client.session:GeminiClient.get:get-dispatch")
 M("C16", "benign-for-range-idiom-rename", "benign",
   [(SS, RF, "redirect_chain", "visited", -1)])
+
+# ---------------------------------------------------------------- C17
+PX = "server/proxy.py"
+HA = "ProxyHandler._handle_async"
+M("C17", "drop-leading-slash-repair", "breaking",
+  [(PX, HA, "                # Ensure path starts with /\n                if not path.startswith(\"/\"):\n                    path = \"/\" + path\n", "")],
+  "Y1:server.proxy:ProxyHandler._handle_async:path-may-lack-leading-slash")
+M("C17", "query-without-question-mark", "breaking",
+  [(PX, HA, "upstream_url += f\"?{request.query}\"", "upstream_url += f\"{request.query}\"")],
+  "Y1:server.proxy:ProxyHandler._handle_async:query-append")
+M("C17", "url-from-request-hostname", "breaking",
+  [(PX, HA, "upstream_url = f\"{self.upstream}{path}\"", "upstream_url = f\"gemini://{request.hostname}{path}\"")],
+  "Y1:server.proxy:ProxyHandler._handle_async")
+M("C17", "strip-partial-segment", "breaking",
+  [(PX, HA, "            is_valid_match = (\n                prefix_ends_with_slash or remaining == \"\" or remaining.startswith(\"/\")\n            )\n", "            is_valid_match = True\n")],
+  "Y2:server.proxy:ProxyHandler._handle_async:strip-table")
+M("C17", "strip-even-when-disabled", "breaking",
+  [(PX, HA, "if self.strip_prefix and path.startswith(self.prefix):", "if path.startswith(self.prefix):")],
+  "Y2:server.proxy:ProxyHandler._handle_async:strip-table")
+M("C17", "path-lowercased", "breaking",
+  [(PX, HA, "        path = request.path\n", "        path = request.path.lower()\n")],
+  "Y3:server.proxy:ProxyHandler._handle_async:reencode")
+M("C17", "path-unquoted", "breaking",
+  [(PX, HA, "        path = request.path\n", "        from urllib.parse import unquote\n        path = unquote(request.path)\n")],
+  "Y")
+M("C17", "upstream-validation-dropped", "breaking",
+  [(PX, "ProxyHandler.__init__", "        if not upstream.startswith(\"gemini://\"):\n            raise ValueError(\"Upstream URL must use gemini:// scheme\")\n", "")],
+  "Y1:server.proxy:ProxyHandler.__init__:upstream-validation")
+M("C17", "follow-redirects-true", "breaking",
+  [(PX, HA, "follow_redirects=False,", "follow_redirects=True,")],
+  "Y4:server.proxy:ProxyHandler._handle_async:fetch-shape")
+M("C17", "router-last-match", "breaking",
+  [("server/router.py", "Router.route", "        for route in self.routes:", "        for route in reversed(self.routes):")],
+  "Y5:server.router:Router.route:first-match")
+M("C17", "proxy-prefix-not-wired", "breaking",
+  [(CFGF, "ServerConfig.get_location_router", "                    prefix=loc.prefix,\n", "")],
+  "Y5:server.config:ServerConfig.get_location_router:proxy-wiring")
+M("C17", "benign-removeprefix-style", "benign",
+  [(PX, HA, "upstream_url = f\"{self.upstream}{path}\"", "base = self.upstream\n        upstream_url = f\"{base}{path}\"")])
+
+# ---------------------------------------------------------------- C18
+M("C18", "revert-fix-charset-relay", "breaking",
+  [(PX, HA, "            if isinstance(response.body, str) and charset.lower() not in (\n                \"utf-8\",\n                \"utf8\",\n            ):", "            if False:")],
+  "Z3:server.proxy:ProxyHandler._handle_async:relay:text, charset iso-8859-1")
+M("C18", "reencode-with-wrong-codec", "breaking",
+  [(PX, HA, "body=response.body.encode(charset),", "body=response.body.encode(\"latin-1\"),")],
+  "Z3:server.proxy:ProxyHandler._handle_async:relay")
+M("C18", "relay-drops-body", "breaking",
+  [(PX, HA, "            # Pass through the response as-is\n            return response\n", "            return GeminiResponse(status=response.status, meta=response.meta)\n")],
+  "Z3:server.proxy:ProxyHandler._handle_async:relay")
+M("C18", "narrow-catch-all", "breaking",
+  [(PX, HA, "        except Exception as e:\n            # Catch-all for unexpected errors", "        except ValueError as e:\n            # Catch-all for unexpected errors")],
+  "Z1:server.proxy:ProxyHandler._handle_async:fault-escapes")
+M("C18", "timeout-answers-40", "breaking",
+  [(PX, HA, "            return GeminiResponse(\n                status=StatusCode.PROXY_ERROR.value,\n                meta=\"Upstream timeout\",\n            )", "            return GeminiResponse(\n                status=StatusCode.TEMPORARY_FAILURE.value,\n                meta=\"Upstream timeout\",\n            )")],
+  "Z1:server.proxy:ProxyHandler._handle_async:fault-status")
+M("C18", "connection-error-reraised", "breaking",
+  [(PX, HA, "            return GeminiResponse(\n                status=StatusCode.PROXY_ERROR.value,\n                meta=f\"Upstream connection failed: {str(e)}\",\n            )", "            raise")],
+  "Z1:server.proxy:ProxyHandler._handle_async:handler-reraises")
+M("C18", "client-timeout-not-wired", "breaking",
+  [(PX, "ProxyHandler.__init__", "            timeout=timeout,\n            verify_ssl=False,", "            verify_ssl=False,")],
+  "Z4:server.proxy:ProxyHandler.__init__:timeout-wiring")
+M("C18", "benign-merge-handlers", "benign",
+  [(PX, HA, "                meta=\"Upstream timeout\",", "                meta=\"Upstream timed out\",")])
+
+# ---------------------------------------------------------------- C19
+UU = "utils/url.py"
+M("C19", "revert-fix-ipv6-brackets", "breaking",
+  [(UU, "parse_url", "    host = f\"[{parsed.hostname}]\" if \":\" in parsed.hostname else parsed.hostname\n", "    host = parsed.hostname\n")],
+  "N1:utils.url:parse_url:normalised:IPv6")
+M("C19", "port-dropped-from-authority", "breaking",
+  [(UU, "parse_url", "f\"{host}:{port}\" if port != DEFAULT_PORT else host,", "host,")],
+  "utils.url:parse_url:normalised")
+M("C19", "default-port-kept", "breaking",
+  [(UU, "parse_url", "f\"{host}:{port}\" if port != DEFAULT_PORT else host,", "f\"{host}:{port}\",")],
+  "N2:utils.url:parse_url:normalised")
+M("C19", "empty-path-not-normalised", "breaking",
+  [(UU, "parse_url", "    path = parsed.path if parsed.path else \"/\"\n", "    path = parsed.path\n")],
+  "utils.url:parse_url:")
+M("C19", "query-dropped-from-normalised", "breaking",
+  [(UU, "parse_url", "            parsed.params,\n            parsed.query,\n", "            parsed.params,\n            \"\",\n")],
+  "N2:utils.url:parse_url:normalised")
+M("C19", "client-sends-raw-url", "breaking",
+  [(SS, GS, "parsed.normalized, response_future, send_on_connect=not self.tofu_db", "url, response_future, send_on_connect=not self.tofu_db")],
+  "N3:client.session:GeminiClient._get_single:wire-form")
+M("C19", "field-path-raw", "breaking",
+  [(UU, "parse_url", "        path=path,\n", "        path=parsed.path,\n")],
+  "N2:utils.url:parse_url:fields")
+M("C19", "benign-netloc-variable", "benign",
+  [(UU, "parse_url", "            f\"{host}:{port}\" if port != DEFAULT_PORT else host,\n", "            (host if port == DEFAULT_PORT else f\"{host}:{port}\"),\n")])
